@@ -440,6 +440,9 @@ func siC01(r *siReport) {
 					r.fail(en, fmt.Sprintf("entries differ: %v", out))
 				}
 			}
+			if r.id != "C01" && strings.HasPrefix(name, "toplevel-map/") {
+				continue // the lost dynamic type is C01's finding; the scalars inside were compared just above
+			}
 			if !siEqual(v, out) {
 				r.fail(cn, fmt.Sprintf("decoded value differs (type %T)", out))
 				continue
